@@ -21,6 +21,7 @@ def conditions(tier):
     cs.append(dict(module="vf.ch.h_c03_graph", func="_g3_cf_fwd", cases=72, what="3-op programs with value-dependent Python control flow, forward mode", timeout={"quick": 120, "thorough": 600}))
     cs.append(dict(module="vf.ch.h_c10", func="_foldt3", cases=6, what="accumulation of three container-valued (tuple) cotangents incl. aliasing: element-wise sum"))
     cs.append(dict(module="vf.ch.h_c10", func="_foldt4", cases=24, what="accumulation of four container-valued cotangents"))
+    cs.append(dict(module="vf.ch.h_ext", func="_contract3", cases=4 * 7 * 7, what="one 3-ary operation (generic dispatch path of defvjp), every differentiated subset, TWO backward evaluations of the same trace: each rule once per evaluation, full sum", timeout={"quick": 240, "thorough": 900}))
     cs.append(dict(module="vf.ch.h_c03_graph", func="_g3_reach", expect="counterexample", what="reachability twin"))
     if tier == "thorough":
         for pre in itertools.product(range(3), repeat=4):
